@@ -14,3 +14,4 @@ func hookTables(w *ecs.World) (int, int, int)               { return 0, 0, 0 }
 func hookLocate(w *ecs.World, e ecs.Entity) (int, int, int) { return -1, 0, 0 }
 func hookCapSum(w *ecs.World) int                           { return 0 }
 func hookLocks(w *ecs.World) int                            { return -1 }
+func hookResIDValue(id ecs.ResID) int                       { return -1 }
